@@ -10,6 +10,7 @@ stable = set(base["stable_pass"])
 with tempfile.TemporaryDirectory() as d:
     x = os.path.join(d, "r.xml")
     env = dict(os.environ); env.pop("MICI_VERIF", None)
+    env["PYTHONPATH"] = os.path.join(repo, "src")  # test the given tree, not the editable install
     subprocess.run(["/venv/bin/python", "-m", "pytest", "-q", "-p", "no:cacheprovider", "--timeout=900",
                     "--continue-on-collection-errors", "-n", "16", f"--junitxml={x}"],
                    cwd=repo, env=env, stdout=subprocess.DEVNULL, stderr=subprocess.DEVNULL)
